@@ -12,6 +12,7 @@ import (
 	"strconv"
 	"sync"
 	"sync/atomic"
+	"syscall"
 	"time"
 
 	"github.com/FollowTheProcess/spok/hash"
@@ -204,6 +205,22 @@ func (h *hashChild) ensure(files []hashFile) error {
 			}
 		case "absent":
 			os.RemoveAll(abs)
+		case "fifo": // a named pipe nobody writes to
+			os.Remove(abs)
+			if err := syscall.Mkfifo(abs, 0o644); err != nil {
+				return err
+			}
+		case "dev": // a character device (through a link, as device nodes cannot be made everywhere)
+			os.Remove(abs)
+			if err := os.Symlink("/dev/null", abs); err != nil {
+				return err
+			}
+		case "ldir": // a symbolic link to a directory
+			os.Remove(abs)
+			os.MkdirAll(abs+".target", 0o755)
+			if err := os.Symlink(abs+".target", abs); err != nil {
+				return err
+			}
 		}
 		h.cur[p] = w
 	}
